@@ -218,7 +218,7 @@ func generate(gcfgs []chartconfig.ChartConfig, paddings map[string]padding) (*te
 			programs[gcfg.Program] = pcfg
 			minVersions[gcfg.Program] = gcfg.Version
 		}
-		minVersions[gcfg.Program] = minVersion(minVersions[gcfg.Program], gcfg.Version)
+		minVersions[gcfg.Program] = minVersion(gcfg.Program, minVersions[gcfg.Program], gcfg.Version)
 		ccfg := telemetry.CounterConfig{
 			Name:  gcfg.Counter,
 			Rate:  1.0, // TODO(rfindley): how should rate be configured?
@@ -358,11 +358,15 @@ func prereleasesForProgram(program string) []string {
 //
 // As a special case, the empty string is treated as an absolute minimum
 // (empty => all versions are greater).
-func minVersion(v1, v2 string) string {
+func minVersion(program, v1, v2 string) string {
 	if v1 == "" || v2 == "" {
 		return ""
 	}
-	if semver.Compare(v1, v2) > 0 {
+	compare := semver.Compare
+	if telemetry.IsToolchainProgram(program) {
+		compare = version.Compare // toolchain programs use Go versions
+	}
+	if compare(v1, v2) > 0 {
 		return v2
 	}
 	return v1
